@@ -713,6 +713,36 @@ func init() {
 		})
 	}
 
+	// ---- strings ----
+	reg("strings.ReplaceAll", func(fr *frame, a []Value) Value {
+		e := fr.e
+		old, ok1 := a[1].(string)
+		nw, ok2 := a[2].(string)
+		if !ok1 || !ok2 {
+			e.unsupported("strings.ReplaceAll with symbolic pattern")
+		}
+		if s, ok := a[0].(string); ok {
+			return strings.ReplaceAll(s, old, nw)
+		}
+		if len(old) != 1 {
+			e.unsupported("strings.ReplaceAll on a symbolic string with a multi-byte pattern")
+		}
+		v := e.strView(a[0])
+		if !v.Len.IsConst() {
+			v.Len = e.tb.Const(64, e.concretize(v.Len, 1<<12))
+		}
+		var out []*Term
+		for i := uint64(0); i < v.Len.C; i++ {
+			c := e.sliceAt(v, e.tb.Const(64, i))
+			if e.Decide(e.tb.Eq(c, e.tb.Const(8, uint64(old[0])))) {
+				out = append(out, e.constBytes(nw)...)
+			} else {
+				out = append(out, c)
+			}
+		}
+		return e.strVal(e.termsSlice(out, "replace"))
+	})
+
 	// ---- errors ----
 	reg("github.com/pkg/errors.callers", func(fr *frame, a []Value) Value { return NilPtr{} })
 	reg("errors.Is", func(fr *frame, a []Value) Value { return fr.e.errorsIs(fr, a[0], a[1], 0) })
